@@ -181,7 +181,8 @@ LifeOK(pre, tsp, twp, ev) ==
 (***************************************************************************)
 NoRead == {<<"ginit", 1>>, <<"gset", 1>>, <<"gcopy", 1>>, <<"uinit", 1>>, <<"sinit", 1>>, <<"winit", 1>>,
            <<"ainit", 1>>}
-StrayAborts(f, pos) == <<f, pos>> \notin NoRead
+\* pos 3: the same stray copy passed in both argument positions
+StrayAborts(f, pos) == IF pos = 3 THEN <<f, 1>> \notin NoRead \/ <<f, 2>> \notin NoRead ELSE <<f, pos>> \notin NoRead
 
 \* the whole C05 contract of one observed operation.  pre/post: canonical
 \* states; tsp/twp: the pointer objects after the operation in PRE numbering.
